@@ -78,6 +78,16 @@ def sentObject (struct : Bool) : Exchange → Option Field
 def secondOk (sent : Option Field) (f : Field) : Bool :=
   f == .null || sent == some f
 
+/-- observers of a scan outcome -/
+def reported : ScanOut → Bool
+  | .record _ => true
+  | .err => false
+
+/-- decision + primary fields (scheme, host:port, main info) -/
+def primary : ScanOut → Option (String × String × Field)
+  | .record r => some (r.proto, r.host, r.info)
+  | .err => none
+
 def elasticHolds (scheme ip : String) (T : Nat) (x1 x2 : Exchange) (obs : ScanOut) (ms : Nat) : Bool :=
   match obs, servedObject T 0 x1 with
   | .err, none => ms ≤ T + slack
